@@ -60,19 +60,20 @@ class IntField(Harness):
         lib = self.lib
         W = bv.W
         w = self.job["params"]["w"]
-        cfg = choose(ctx, "cfg", len(ENCS) * len(ORDERS) * 8 * 2)
-        enc_name, order, off, ctxcal = ENCS[cfg % 3], ORDERS[(cfg // 3) % 2], (cfg // 6) % 8, bool(cfg // 48)
+        cfg = choose(ctx, "cfg", len(ENCS) * len(ORDERS) * 8 * 2 * 2)
+        enc_name, order, off, ctxcal, wrap = ENCS[cfg % 3], ORDERS[(cfg // 3) % 2], (cfg // 6) % 8, bool((cfg // 48) % 2), bool(cfg // 96)
         nbytes = (off + w + 7) // 8 + 1
         buf = bv.fresh_bytes("B", nbytes)
         # ctxcal: the encoding carries a context calibrator whose context does NOT hold for this packet (and no default calibrator): the field is
         # uncalibrated and must still come out as the exact integer
         enc = lib.encodings.IntegerDataEncoding(w, enc_name, byte_order=order, context_calibrators=unmatched_context(lib) if ctxcal else None)
-        ptype = lib.parameter_types.IntegerParameterType("T", enc)
+        # wrap: the integer encoding sits in a FloatParameterType (legal XTCE; without a calibrator the field is still an uncalibrated integer)
+        ptype = (lib.parameter_types.FloatParameterType if wrap else lib.parameter_types.IntegerParameterType)("T", enc)
         packet = lib.packets.CCSDSPacket(raw_data=buf)
         packet.raw_data.pos = off
         if ctxcal:
             packet["MODE"] = lib.common.IntParameter(3)
-        inputs = {"buf": buf, "w": w, "enc": enc_name, "order": order, "off": off, "ctxcal": ctxcal}
+        inputs = {"buf": buf, "w": w, "enc": enc_name, "order": order, "off": off, "ctxcal": ctxcal, "wrap": wrap}
         try:
             v = ptype.parse_value(packet)
         except Exception as e:     # noqa: BLE001 - a library outcome the property does not allow here
@@ -261,7 +262,7 @@ def concrete(req):
         class L:
             from space_packet_parser.xtce import calibrators, comparisons
         enc = encodings.IntegerDataEncoding(i["w"], i["enc"], byte_order=i["order"], context_calibrators=unmatched_context(L) if i.get("ctxcal") else None)
-        pt = parameter_types.IntegerParameterType("T", enc)
+        pt = (parameter_types.FloatParameterType if i.get("wrap") else parameter_types.IntegerParameterType)("T", enc)
     else:
         enc = encodings.FloatDataEncoding(i["w"], encoding=i["enc"], byte_order=i["order"])
         pt = parameter_types.FloatParameterType("T", enc)
@@ -305,7 +306,7 @@ def judge(req, got):
     bits = "".join(f"{b:08b}" for b in buf)
     w, off = i["w"], i["off"]
     field = bits[off:off + w]
-    desc = f"{req['kind']} w={w} {i['enc']} {i['order']} offset {off} on {buf.hex()}" + (" (encoding with a context calibrator whose context does not hold)" if i.get("ctxcal") else "")
+    desc = f"{req['kind']} w={w} {i['enc']} {i['order']} offset {off} on {buf.hex()}" + (" (encoding with a context calibrator whose context does not hold)" if i.get("ctxcal") else "") + (" (integer encoding inside a FloatParameterType)" if i.get("wrap") else "")
     if got.get("cls") != "ok":
         return "reproduced", f"{desc}: raised {got.get('cls')}"
     if got["pos"] != off + w:
